@@ -171,7 +171,7 @@ func (g *Global) LLString() string {
 		fmt.Fprintf(buf, ", %s", md)
 	}
 	for _, attr := range g.FuncAttrs {
-		fmt.Fprintf(buf, " %s", attr)
+		fmt.Fprintf(buf, " %s", funcAttrString(attr))
 	}
 	return buf.String()
 }
